@@ -315,3 +315,11 @@ func ResultValue(ci ssa.CallInstruction, idx int) ssa.Value {
 	}
 	return nil
 }
+
+// StripExtract returns the tuple behind an Extract (or v itself).
+func StripExtract(v ssa.Value) ssa.Value {
+	if ex, ok := v.(*ssa.Extract); ok {
+		return ex.Tuple
+	}
+	return v
+}
